@@ -21,7 +21,7 @@
 From AV Require Import Base.Bytes Base.Outcome Hash.HashModel Tree.Heap Tree.Ops Tree.Script.
 From AV Require Import Tree.Index Tree.IndexProofs Tree.Refs Tree.RefsProofsReport Tree.RefsProofsOps Tree.IndexProofsTiny.
 From AV Require Import Tree.Inv Spec.SpecReal Tree.CheckFn Tree.IndexProofsClosed Tree.IndexProofsTinyMove.
-From AV Require Import Tree.RefsAll Tree.IndexProofsNodeInv Tree.IndexProofsAll Tree.Script2 Tree.IndexProofsOp2 Tree.SortProofsNames.
+From AV Require Import Tree.RefsAll Tree.IndexProofsNodeInv Tree.IndexProofsAll Tree.Script2 Tree.IndexProofsOp2 Tree.SortProofsNames Tree.IndexProofsSortReal.
 Import Tiny.
 Open Scope list_scope.
 Open Scope N_scope.
@@ -195,7 +195,8 @@ Theorem C45_history2_partial :
   Inv04 T check_fn w' /\ Inv05 T w' /\ RX T w'.
 Proof. exact IndexProofsOp2.C45_history2_partial. Qed.
 
-(* the whole alphabet op2 except load_buffer (Pending45_3): additionally sort (side condition NameFirst), duplicate (dup_clean) *)
+(* the whole alphabet op2 except load_buffer (Pending45_3): additionally sort (side condition: no late SHORT-NAME element,
+   late_short), duplicate (dup_clean).  MaskOk is agent-c14's table hypothesis; real_mask_ok: it holds for the generated tables *)
 Theorem C45_inv2 :
   forall (T : tables) (tab_el tab_at tab_en : nametab) (check_fn : N -> list N -> res bool)
          (float_parse : list N -> option N) (float_fmt : N -> list N)
@@ -226,6 +227,9 @@ Theorem C45_history2 :
             root_attrs l w = Val w' ->
   Inv04 T check_fn w' /\ Inv05 T w' /\ RX T w'.
 Proof. exact IndexProofsOp2.C45_history2. Qed.
+
+Theorem C05_mask_ok_real : MaskOk RT.
+Proof. exact real_mask_ok. Qed.
 
 Theorem C05_report :
   forall (T : tables) (check_fn : N -> list N -> res bool) (w : world) (m : N) (r : out (list id)) (w' : world),
